@@ -33,6 +33,17 @@ impl<'a> BlockFiltersProcess<'a> {
     }
 
     pub fn execute(self) -> Status {
+        // Take the lock before looking at the filter scripts: a `set_scripts` call in between
+        // would let this batch be matched against another script set than the one checked here.
+        #[cfg(feature = "verif")]
+        crate::verif_hooks::at(crate::verif_hooks::Point::LockIntent("filter.block_filters"));
+        let mut matched_blocks = self
+            .filter
+            .peers
+            .matched_blocks()
+            .write()
+            .expect("poisoned");
+
         if self.filter.storage.is_filter_scripts_empty() {
             info!("ignoring, filter scripts may have been cleared during syncing");
             return Status::ok();
@@ -53,15 +64,6 @@ impl<'a> BlockFiltersProcess<'a> {
             warn!("ignoring, peer {} prove state is none", self.peer);
             return Status::ok();
         };
-
-        #[cfg(feature = "verif")]
-        crate::verif_hooks::at(crate::verif_hooks::Point::LockIntent("filter.block_filters"));
-        let mut matched_blocks = self
-            .filter
-            .peers
-            .matched_blocks()
-            .write()
-            .expect("poisoned");
 
         let block_filters = self.message.to_entity();
         let start_number: BlockNumber = block_filters.start_number().unpack();
